@@ -806,3 +806,47 @@ def convert_units(s, lam, phi):
             l["v0"], l["v1"] = r(l["v0"] * f), r(l["v1"] * f)
     t.meta = dict(getattr(s, "meta", {}))
     return t
+
+
+def gen_bracket(rng):
+    """A wall bracket: an arm built into the wall and a strut pinned at both ends under it (3-4-5), unloaded - the strut carries
+    nothing but what the arm hands it and, with -w, its own weight; optionally a load at the tip of the arm."""
+    s = Structure()
+    std_mat_sec(s, rng)
+    a = Fr(rng.choice(["10", "25", "50", "2.5"]))
+    ox, oy = Fr(rng.randint(-20, 20)) * 10, Fr(rng.randint(-20, 20)) * 10
+    up = rng.choice([-1, 1])
+    s.nodes["wall"] = (ox, oy, (True, True, True))
+    s.nodes["tip"] = (ox + 4 * a, oy, (False, False, False))
+    s.nodes["foot"] = (ox, oy + up * 3 * a, (True, True, False))
+    mat = rng.choice(list(s.mats))
+    sec = rng.choice(list(s.secs))
+    s.bars.append({"id": "arm", "n1": "wall", "l1": LINKS["rigid"], "n2": "tip", "l2": LINKS["rigid"], "mat": mat, "sec": sec})
+    s.bars.append({"id": "strut", "n1": "foot", "l1": LINKS["pin"], "n2": "tip", "l2": LINKS["pin"], "mat": rng.choice(list(s.mats)), "sec": rng.choice(list(s.secs))})
+    s.loads = []
+    if rng.random() < 0.5:
+        s.loads.append({"kind": "c", "term": "fy", "local": False, "bar": "arm", "t": Fr(1), "v": Fr(-rng.choice([100, 400, 1500]))})
+    s.meta = {"kind": "bracket"}
+    return s
+
+
+def gen_slider_joint(rng):
+    """A loaded beam A-J followed by a bar that ENDS in J with a link that releases the x movement there ({dy rz}, {dy} or {rz}):
+    the later bar's end has a fresh x number next to the joint's own y / rotation numbers, which already carry the beam's loads."""
+    s = Structure()
+    std_mat_sec(s, rng)
+    a = Fr(rng.choice(["10", "25", "50"]))
+    ox, oy = Fr(rng.randint(-20, 20)) * 10, Fr(rng.randint(-20, 20)) * 10
+    s.nodes["A"] = (ox, oy, (True, True, True))
+    s.nodes["J"] = (ox + 4 * a, oy, (False, False, False))
+    s.nodes["C"] = (ox + 4 * a, oy - 3 * a, (True, True, True))
+    mat, sec = rng.choice(list(s.mats)), rng.choice(list(s.secs))
+    s.bars.append({"id": "b1", "n1": "A", "l1": LINKS["rigid"], "n2": "J", "l2": LINKS["rigid"], "mat": mat, "sec": sec})
+    lk = rng.choice(["slide_x", "only_dy", "only_rz"])
+    s.bars.append({"id": "b2", "n1": "C", "l1": LINKS["rigid"], "n2": "J", "l2": LINKS[lk], "mat": mat, "sec": sec})
+    s.loads = [{"kind": "d", "term": "fy", "local": True, "bar": "b1", "t0": Fr(0), "v0": Fr(-rng.choice([3, 12])), "t1": Fr(1), "v1": Fr(-rng.choice([3, 20]))},
+               {"kind": "c", "term": "mz", "local": True, "bar": "b1", "t": Fr(1), "v": Fr(rng.choice([-5000, 12000]))}]
+    if rng.random() < 0.5:
+        s.loads.append({"kind": "d", "term": "fy", "local": True, "bar": "b2", "t0": Fr(0), "v0": Fr(2), "t1": Fr(1), "v1": Fr(5)})
+    s.meta = {"kind": "slider-joint/" + lk}
+    return s
